@@ -95,3 +95,30 @@ func VerifH14Import() {
 		verifAssert(got == lastOther, "Value(other): reads the last imported value")
 	}
 }
+
+// H14e: Field.SetValue on a field whose base is not 0 (metadata upgraded from
+// the v1 format has base = min): the value reads back, the bit depth stays a
+// depth, and an equality range query finds the column.
+func VerifH14SetValueBase() {
+	dir := verifTempDir()
+	defer verifCleanTemp(dir)
+	min := int64(int8(verifU8("min")))
+	max := int64(int8(verifU8("max")))
+	verifAssume(min <= max)
+	base := int64(0)
+	if verifChoice("legacy", 2) == 1 {
+		base = min // as left by loadMeta for v1 metadata
+	}
+	fi := verifNewIntField(min, max, base, 1)
+	fi.fld.path = dir
+	col := uint64(verifU16("col"))
+	v := int64(int8(verifU8("value")))
+	verifAssume(verifAnd(min <= v, v <= max))
+	_, err := fi.fld.SetValue(col, v)
+	verifReach("value set")
+	verifAssert(err == nil, "SetValue: no error")
+	verifAssert(fi.bsig.BitDepth <= 63, "SetValue: the bit depth stays below 64")
+	got, ok, err := fi.fld.Value(col)
+	verifAssert(err == nil && ok, "Value: exists")
+	verifAssert(got == v, "Value: reads the value written")
+}
